@@ -75,6 +75,19 @@ pub fn main(o: &Opts) -> i32 {
     let rt_snap: Vec<u8> = u.iter().zip(&ids).map(|((_, v), id)| copy.get_node(*id).and_then(|n| n.get_property("v").cloned()).map(|x| canon(&x) == canon(v)).unwrap_or(false) as u8).collect();
     let _ = db.close();
     let _ = std::fs::remove_dir_all(&dir);
+    // dense snapshots: millions of small values (each costs the decoder several times its encoded size)
+    let rt_snap_big: Vec<u8> = if o.flag("big") {
+        let dense: Vec<Value> = vec![
+            Value::List((0..6_000_000i64).map(|i| Value::Int64(i % 100)).collect::<Vec<_>>().into()),
+            Value::List((0..1_500_000i64).map(|i| Value::List(vec![Value::Int64(i % 7), Value::Bool(i % 2 == 0), Value::Null].into())).collect::<Vec<_>>().into()),
+        ];
+        dense.iter().map(|v| {
+            let bdb = GrafeoDB::new_in_memory();
+            let id = bdb.create_node_with_props(&["Big"], [("v", v.clone()), ("tmin", Value::Timestamp(grafeo_common::types::Timestamp::from_micros(i64::MIN))), ("tmax", Value::Timestamp(grafeo_common::types::Timestamp::from_micros(i64::MAX)))]);
+            let r = crate::util::catch(std::panic::AssertUnwindSafe(|| bdb.export_snapshot().ok().and_then(|b| GrafeoDB::import_snapshot(&b).ok()).and_then(|c| c.get_node(id).and_then(|n| n.get_property("v").cloned())).map(|x| x == *v).unwrap_or(false)));
+            r.unwrap_or(false) as u8
+        }).collect()
+    } else { vec![] };
     // consequences: sorting with the orderable wrapper puts eq-equal values next to each other; a hash set / BTree set keyed by the
     // wrappers holds exactly one entry per equivalence class
     // (a panic inside std's sort - "comparison function does not implement a total order" - counts as a failed check)
@@ -95,7 +108,7 @@ pub fn main(o: &Opts) -> i32 {
     let mut out = Out::create(&o.str("out", "vals.ndjson"));
     out.emit(&json!({"n": n, "no": no, "names": u.iter().map(|x| x.0.clone()).collect::<Vec<_>>(), "ord": ord.iter().map(|x| x.0 + 1).collect::<Vec<_>>(),
                      "canon": u.iter().map(|x| { let c = canon(&x.1); c.chars().take(40).collect::<String>() }).collect::<Vec<_>>(),
-                     "eqH": eq_h, "hH": h_h, "eqO": eq_o, "hO": h_o, "cmpO": cmp_o, "rtSpill": rt_spill, "rtWal": rt_wal, "rtSnap": rt_snap, "grp": grp}));
+                     "eqH": eq_h, "hH": h_h, "eqO": eq_o, "hO": h_o, "cmpO": cmp_o, "rtSpill": rt_spill, "rtWal": rt_wal, "rtSnap": rt_snap, "rtSnapBig": rt_snap_big, "grp": grp}));
     out.finish();
     println!("{{\"n\": {n}, \"no\": {no}}}");
     0
